@@ -459,12 +459,14 @@ def _try_stage(ob, stage, timeout_ms, tac):
     return False
 
 
-def _pipeline(ob, timeout_ms, tac, retry_ms, use_cvc5, hint=None):
+def _pipeline(ob, timeout_ms, tac, retry_ms, use_cvc5, hint=None, hint_only=False):
     """one obligation, start to finish, inside a worker:  quantifier-free hypotheses -> relevance slices -> all
     hypotheses -> cvc5 -> retry.  `unsat` on a subset of the hypotheses is a proof; `sat` only counts on the full set."""
     t0 = time.time()
     if hint and _try_stage(ob, hint, timeout_ms, tac):
         return "proved", "z3+inst" if hint in ("inst", "coi") else "z3", time.time() - t0, None, "", hint
+    if hint and hint_only:
+        return "unknown", "z3", time.time() - t0, None, "$hint-stage-failed", ""
     r = _pipeline0(ob, timeout_ms, tac, retry_ms, use_cvc5)
     return r
 
@@ -600,7 +602,8 @@ def discharge(obligations, timeout_ms=20000, tactic=None, retry_ms=None, use_cvc
             futs.append(None)
             continue
         tac = per_ob_tactic(ob) if per_ob_tactic else tactic
-        futs.append(ex.submit(_pipeline, ob, timeout_ms, tac, retry_ms, use_cvc5, hints.get(hint_key(ob))))
+        # an obligation that has a recorded proof stage is first tried at that stage only
+        futs.append(ex.submit(_pipeline, ob, timeout_ms, tac, retry_ms, use_cvc5, hints.get(hint_key(ob)), True))
     results = []
     for ob, fu, key in zip(obligations, futs, keys):
         if fu == "trivial":
@@ -613,9 +616,30 @@ def discharge(obligations, timeout_ms=20000, tactic=None, retry_ms=None, use_cvc
         if status == "proved":
             _cache_put(key)
         results.append(Result(ob.name, status, backend, t, model, reason, ob, stage))
+    # obligations whose recorded stage no longer proves them get the whole pipeline - but when there are many of them (a
+    # change that breaks a contract breaks many clauses at once) only the first FULL_BUDGET do; the rest stay undecided
+    # with that reason (on the unchanged tree none is in this situation; undecided never counts as held)
+    failed_hint = [i for i, r in enumerate(results) if r.status == "unknown" and r.reason == "$hint-stage-failed"]
+    budget = int(os.environ.get("PYVC_FULL_BUDGET", "32"))
+    jobs2 = []
+    for n_, i in enumerate(failed_hint):
+        if n_ < budget:
+            tac = per_ob_tactic(obligations[i]) if per_ob_tactic else tactic
+            jobs2.append((i, ex.submit(_pipeline0, obligations[i], timeout_ms, tac, retry_ms, use_cvc5)))
+        else:
+            o = results[i]
+            results[i] = Result(o.name, "unknown", o.backend, o.time, None,
+                                "recorded proof stage failed; not retried (more than %d such obligations in this run)" % budget,
+                                o.ob, "")
+    for i, fu in jobs2:
+        status, backend, t, model, reason, stage = fu.result()
+        if status == "proved":
+            _cache_put(keys[i])
+        o = results[i]
+        results[i] = Result(o.name, status, backend, o.time + t, model, reason, o.ob, stage)
     # second phase: undecided obligations get a portfolio of long runs with other seeds (quantifier instantiation is
     # sensitive to the search order and to machine load; a proof, when it exists, is usually found quickly by some seed)
-    und = [i for i, r in enumerate(results) if r.status == "unknown"]
+    und = [i for i, r in enumerate(results) if r.status == "unknown" and "not retried" not in (r.reason or "")][:12]
     if und and os.environ.get("PYVC_NO_RETRY") != "1":
         quick = os.environ.get("PYVC_TIER", "quick") == "quick"
         long_ms = max(3 * timeout_ms, 90000) if quick else max(4 * timeout_ms, 120000)
